@@ -19,7 +19,7 @@ import sys
 from vcheck import Ctx, f2hex, hex2f
 
 LEVEL = "proof"
-DRIVERS = ["drv_global"]
+DRIVERS = ["drv_global", "drv_die"]
 TRUSTED = [
     "Lean 4.33 kernel; Mathlib lemmas; axioms ⊆ {propext, Classical.choice, Quot.sound}",
     "FV/Model/Global.lean models the tolerance state of class Rectangle (sticky first definition), FV/Model/Registers.lean "
@@ -268,6 +268,15 @@ def sat_variant(rng: random.Random, cons: list) -> list:
         d["terms"] = ts
         out.append(d)
     return out
+
+
+def gen_termonly(rng: random.Random, s: float, L: int = 10) -> dict:
+    """a netlist of terminals only (no rectangle, no positive area): since /repo 750ac5a it proposes NO tolerance, so the
+    next design is still the first one to define it"""
+    n = rng.randint(2, 4)
+    mods = [f"  T{i}: {{terminal: true, center: [{fmt(rng.randint(0, 4 * L) / L * s)}, {fmt(rng.randint(0, 4 * L) / L * s)}]}}" for i in range(n)]
+    nets = ", ".join(f"[T{i}, T{i + 1}]" for i in range(n - 1))
+    return {"kind": "netlist", "scale": s, "rects": [], "termonly": True, "text": "Modules: {\n" + ",\n".join(mods) + "\n}\nNets: [" + nets + "]\n"}
 
 
 def gen_strop(rng: random.Random, s: float, defect: bool, L: int = 10) -> dict:
@@ -1075,7 +1084,7 @@ def proposal_value(prop) -> float | None:
         m = math.inf
         for v in dims:
             m = min(m, v)
-        return m * K_NET
+        return m * K_NET if m < math.inf else None
     return None
 
 
@@ -1103,6 +1112,15 @@ def make_task(rng: random.Random, ctx: Ctx, weights: dict | None = None):
         hs = s * base ** rng.randint(-kmax, kmax)
         hk = pick_kind(rng, weights)
         hist.append(GEN[hk](rng, hs, rng.random() < 0.25, L))
+    if kind in ("die", "alloc") and rng.random() < 0.4:
+        # the smallest design the quantifier allows as the FIRST design of the process: the inherited tolerance is then far
+        # below the die's own, which is where a self-check reading the process-wide tolerance instead of the die's shows
+        hist.insert(0, gen_netlist(rng, s * base ** (-kmax), False, L))
+    if rng.random() < 0.15:
+        # a terminals-only netlist as the FIRST design of the process (and sometimes again later): it must define nothing
+        hist.insert(0, gen_termonly(rng, s * base ** rng.randint(-kmax, kmax), L))
+        if rng.random() < 0.3:
+            hist.append(gen_termonly(rng, s, L))
     if kind in ("netlist", "alloc", "alloctext", "legal", "legalbuild", "die", "spectral", "force", "glbfloor") and rng.random() < 0.5:
         # an earlier, DIFFERENT design that shares exact rectangle descriptors with the probe (same regular grid) but has
         # other attributes: value-keyed caches / shared objects leak marks (fixed, roles, moved centres) through these
@@ -1280,6 +1298,28 @@ def run(ctx: Ctx) -> None:
             for (i, _), dig in zip(differing, pool.map(child_control, [t for _, t in differing], chunksize=1)):
                 control[i] = dig
     ctx.count("control-runs", len(differing))
+    # die probes whose verdict flips after the history: what does the model of the UNCHANGED constructor say under the
+    # inherited tolerance state?  (it uses the die's own tolerance for the inside / area-sum self-checks; if it keeps the fresh
+    # verdict while the code flips, the documented sticky-tolerance mechanism does not explain the difference)
+    die_model: dict = {}
+    dq, dk = [], []
+    for i, (before_probe, probe) in differing:
+        if probe["kind"] == "die":
+            for st in ([-1.0, -1.0], before_probe):
+                r = die_model_request(probe, st)
+                if r is not None:
+                    dq.append(r)
+                    dk.append(i)
+    if dq:
+        try:
+            rep = ctx.model(dq, exe="drv_die")
+        except Exception as ex:
+            rep = None
+            ctx.notes.append(f"drv_die not usable for the die-verdict mask: {type(ex).__name__}")
+        if rep is not None:
+            for k in range(0, len(rep) - 1, 2):
+                if dk[k] == dk[k + 1] and "bad-op" not in (rep[k], rep[k + 1]):
+                    die_model[dk[k]] = (rep[k].startswith("ok"), rep[k + 1].startswith("ok"))
     reqs, expect = [], []
     for i, (hist, probe) in enumerate(tasks):
         fresh_dig, fresh_states, fresh_props, fresh_feet = results[2 * i]
@@ -1299,6 +1339,8 @@ def run(ctx: Ctx) -> None:
         ctx.count("verdict:" + str(json.loads(fresh_dig)[0])[:12])
         if hist and hist[0]["kind"] == "allocfirst":
             ctx.count("history-starts-with-allocation")
+        if hist and hist[0].get("termonly"):
+            ctx.count("history-starts-with-terminals-only-netlist")
         same, exact = digests_equal(fresh_dig, hist_dig)
         if same:
             ctx.drift += 0 if exact else 1
@@ -1313,9 +1355,17 @@ def run(ctx: Ctx) -> None:
                 lo, hi = min(legit), max(legit)
                 if not robust(probe, lo, hi):
                     finding = "C20-sticky-tolerance-nonrobust-design"
-            ctx.spec_fail("history_indep", inp, {"fresh": fresh_dig[:600], "after_history": hist_dig[:600],
-                                                 "control_with_only_the_tolerance_preset": (control.get(i) or "")[:600],
-                                                 "tolerance_alone_explains": by_tolerance_alone},
+            clause = "history_indep"
+            if i in die_model:
+                fresh_ok, hist_ok = json.loads(fresh_dig)[0] == "accepted", json.loads(hist_dig)[0] == "accepted"
+                ctx.count("die-verdict-mask:model-consulted")
+                if fresh_ok != hist_ok and die_model[i][0] == fresh_ok and die_model[i][1] == fresh_ok:
+                    # the model (own tolerance in the self-checks) keeps the fresh verdict under the inherited state
+                    finding, clause = None, "die_verdict_after_history"
+            ctx.spec_fail(clause, inp, {"fresh": fresh_dig[:600], "after_history": hist_dig[:600],
+                                        "control_with_only_the_tolerance_preset": (control.get(i) or "")[:600],
+                                        "tolerance_alone_explains": by_tolerance_alone,
+                                        "die_model_accepts(fresh_state, inherited_state)": die_model.get(i)},
                           size=len(hist), finding=finding)
         # spec on implementation: the tolerance in force after the history is the proposal of the FIRST design that
         # carries one (sticky), computed on the spec side from the generated data
@@ -1659,6 +1709,26 @@ def run_satproc(ctx: Ctx, hs: list) -> None:
         results = pool.map(child_satproc, hs, chunksize=1)
         solos = pool.map(child_satproc, [project(hs[k], i) for k, i in solo_jobs], chunksize=1)
     satproc_stream(ctx, hs, results, dict(zip(solo_jobs, solos)))
+
+
+def die_model_request(probe: dict, state) -> str | None:
+    """`F model <state> <sqrt> <doc> 0` for drv_die (the C01 model of the UNCHANGED `Die.__init__`, deterministic cover) from a
+    generated die document; `state` = the class-wide (dist, area) pair in force before the constructor runs."""
+    try:
+        regs = [(x, y, w, h) for (x, y, w, h) in probe["rects"][0]]
+        tags = []
+        body = probe["text"].split("regions: [", 1)[1] if "regions: [" in probe["text"] else ""
+        for part in body.split("]")[:len(regs)]:
+            tags.append(part.split(",")[-1].strip().strip("'"))
+        items = [("width", "n " + f2hex(probe["W"])), ("height", "n " + f2hex(probe["H"]))]
+        if regs:
+            rl = " ".join("l 5 " + " ".join("n " + f2hex(v) for v in r) + " s " + t for r, t in zip(regs, tags))
+            items.append(("regions", f"l {len(regs)} {rl}"))
+        doc = f"m {len(items)} " + " ".join(k + " " + v for k, v in items)
+        st = "u" if state[0] < 0 else f"d {f2hex(state[0])} {f2hex(state[1])}"
+        return f"F model {st} {f2hex(0.0)} {doc} 0"
+    except Exception:
+        return None
 
 
 def child_control(task):
